@@ -99,7 +99,7 @@ def _drive(lines):
 
 
 def _clause_codes(code):
-    return {18001: [18011, 18012, 18013, 18014], 18003: [18031, 18032, 18033, 18034, 18035]}.get(code, [])
+    return {18001: [18011, 18012, 18013, 18014, 18016], 18003: [18031, 18032, 18033, 18034, 18035, 18036]}.get(code, [])
 
 
 def _eval_clauses(records):
@@ -156,7 +156,14 @@ def classify(record):
         elif c == "2":
             keys.append("vec_znx.read_from.max_size_unchecked" if leaf == "vec_znx" else None)
         elif c == "3":
-            keys.append(None if tcode < 10 else "wrapper.commit_before_inner_read" if tcode < 40 else "composite.partial_update_on_error")
+            # composites: known only when the metadata of the composite itself (dist, counts, Galois elements, ks_glwe tag:
+            # clause 6) is unchanged and only sub-keys 0..k-1 have been replaced; a changed dist / count is never known
+            keys.append(None if tcode < 10 else "wrapper.commit_before_inner_read" if tcode < 40
+                        else "composite.partial_update_on_error" if "6" not in failing else None)
+        elif c == "6":
+            if tcode >= 40:
+                keys.append(None)      # dist / counts / Galois elements of the composite changed although read_from failed
+            # HAL types and wrappers: clause 6 is clause 3
         elif c == "4":
             keys.append("wrapper.zero_base2k_dsize_accepted" if tcode >= 10 else None)
         else:
